@@ -1952,10 +1952,10 @@ def part_a(ctx, N):
 
 
 def run(ctx):
-    items = part_a(ctx, ctx.scale(200, 4000))
-    items += part_b(ctx, ctx.scale(150, 3000))
+    items = part_a(ctx, ctx.scale(200, 10000))
+    items += part_b(ctx, ctx.scale(150, 7500))
     run_items(ctx, items)
-    part_c(ctx, ctx.scale(150, 3000), ctx.scale(160, 3200), ctx.scale(42, 840))
+    part_c(ctx, ctx.scale(150, 7500), ctx.scale(160, 8000), ctx.scale(42, 2100))
 
 
 def search(ctx):
